@@ -74,6 +74,9 @@ type C09Scenario struct {
 	Sched     []byte  `json:"sched"`
 	SchedSeed uint64  `json:"sched_seed"`
 	Preempt   int64   `json:"preempt,omitempty"` // see simrt.SetPreempt
+	// EndS: the request ends that many seconds after its start (0 = 120). An end that is not a multiple of the range puts
+	// entries into the last range window the server computes.
+	EndS int `json:"end_s,omitempty"`
 }
 
 type catLine struct {
@@ -702,7 +705,10 @@ func genC09(rt *rapid.T) C09Scenario {
 		}
 		s.Lines = append(s.Lines, idx)
 	}
-	s.GapMs = []int{rapid.SampledFrom([]int{1, 250, 1000, 7000}).Draw(rt, "gap")}
+	// (-1: the entries of a series are spread over the whole request window, the last one half a second before its end -
+	// the last range window of the request then is not empty)
+	s.GapMs = []int{rapid.SampledFrom([]int{1, 250, 1000, 7000, -1, -1}).Draw(rt, "gap")}
+	s.EndS = rapid.SampledFrom([]int{0, 0, 118, 97, 59}).Draw(rt, "end")
 	if p.RangeFn == "" && rapid.IntRange(0, 11).Draw(rt, "big?") == 0 {
 		// thousands of entries behind a log query: stages flush in portions
 		s.Repeat, s.GapMs = rapid.SampledFrom([]int{30, 60}).Draw(rt, "repeat"), []int{1}
@@ -719,7 +725,7 @@ func genC09(rt *rapid.T) C09Scenario {
 }
 
 const c09Start = int64(946684800) * 1e9 // 2000-01-01T00:00:00Z
-const c09End = c09Start + 120*1e9
+const c09EndDefault = c09Start + 120*1e9
 
 // RunC09 executes a scenario: the query face serves what a correct ClickHouse returns for the part
 // of the program before the split point; the response is compared with the reference evaluation.
@@ -752,6 +758,10 @@ func c09body(ri *simcheck.RunInfo, s C09Scenario) {
 	// data set -> what ClickHouse returns for the prefix (selector + pre-filter), in API order
 	var base []refEntry
 	gap := int64(s.GapMs[0]) * 1e6
+	c09End := c09EndDefault
+	if s.EndS > 0 {
+		c09End = c09Start + int64(s.EndS)*1e9
+	}
 	for si := 0; si < s.Series && si < len(s.Lines); si++ {
 		lbl := map[string]string{"app": "x", "series": fmt.Sprintf("s%d", si)}
 		lines := s.Lines[si]
@@ -765,6 +775,13 @@ func c09body(ri *simcheck.RunInfo, s C09Scenario) {
 				line = cl.logfmt
 			}
 			ts := c09Start + 1e9 + int64(j)*gap + int64(si)
+			if gap < 0 {
+				n := int64(len(lines) - 1)
+				if n < 1 {
+					n = 1
+				}
+				ts = c09Start + 1e9 + int64(j)*((c09End-c09Start-1500000000)/n) + int64(si)
+			}
 			if ts >= c09End {
 				break
 			}
@@ -1029,8 +1046,10 @@ func c09body(ri *simcheck.RunInfo, s C09Scenario) {
 	if int64(s.StepS)*1e9 <= rng {
 		for k, bs := range refBy {
 			for b, v := range bs {
-				if v == 0 {
-					continue // zero values are dropped from matrix responses
+				if math.Abs(v) < 1e-9 {
+					// zero values are dropped from matrix responses; a sum of values that cancel out is exactly zero in one
+					// order of summation and 5e-17 in another
+					continue
 				}
 				if b+rng <= c09Start || b >= c09End {
 					continue
